@@ -128,6 +128,9 @@ func (o *Op) String() string {
 		s += fmt.Sprintf(" off=%d count=%d", o.Off, o.Count)
 	case OpCreate:
 		s += fmt.Sprintf(" mode=%d", o.Mode)
+		if o.SetSize {
+			s += fmt.Sprintf(" size=%d", o.Size)
+		}
 	}
 	return s
 }
@@ -787,6 +790,17 @@ func (m *Model) createEffect(op *Op, dir *MObj) effect {
 		if kind == KLnk {
 			n.Target = op.Target
 			n.Size = uint64(len(op.Target))
+		}
+		if op.K == OpCreate && op.SetSize && r != nil && r.HasAttr {
+			// an initial size in CREATE may be honoured or ignored (this server
+			// ignores it); it may never exceed the announced maximum
+			switch {
+			case r.Size == 0:
+			case r.Size == op.Size && op.Size <= m.Lim.MaxFileSize:
+				n.truncate(op.Size)
+			default:
+				d.add("CREATE with initial size %d: the new file has size %d (announced maxfilesize %d)", op.Size, r.Size, m.Lim.MaxFileSize)
+			}
 		}
 		if r != nil {
 			what := op.K.String() + " " + shortName(op.Name)
